@@ -8,10 +8,12 @@ traces and `decide` can check witness runs:
   `PostEventBlocking`; `SyncFunc` and `Resize` are `PostEvent`s), the FIFO channel with capacity
   `qcap`, the application receiving events.
 * `SSys` — shutdown: the parser goroutine of ansi/parser.go (`run`, `emit`, `Close`, `WaitClose`;
-  channel `sequences` capacity 2, `close`/`closed` capacity 1), the input goroutine of `openTty`
-  (`select` over the parser channel and the kill signal), goroutines executing `Close()` (flag check,
-  `PostEvent(QuitEvent)`, flag set, then `Suspend`'s dance: signal close, provoke a DA1 reply, wait
-  for `closed`; finally `close(chQuit)`), the terminal.
+  channel `sequences` capacity 2, `close`/`closed` capacity 1), the input goroutines of `openTty`
+  (`select` over the parser channel, SIGWINCH and the kill signal; the one of the current session and
+  those of earlier sessions that are still alive after a `Resume`), goroutines executing `Close()`
+  (test-and-set of the flag, `PostEvent(QuitEvent)`, then `Suspend`'s dance: signal close, provoke a
+  DA1 reply, wait for `closed` while discarding what the parser emits; finally `close(chQuit)`), the
+  terminal.
 
 Data races are outside this model (DESIGN §10); what is modelled is which operation can block on
 what, and in which order messages are delivered.
@@ -67,7 +69,22 @@ inductive QReachable (qcap : Nat) : QSys → Prop
   | init : QReachable qcap {}
   | step {s s' : QSys} (l : QLabel) : QReachable qcap s → qnext qcap s l = some s' → QReachable qcap s'
 
-/-! ## Shutdown -/
+/-! ## Shutdown
+
+The protocol as it is after the repairs of F13 and F53 (/repo "fix: Suspend and Close no longer wait
+for a receiver of the parser's channel", "fix: PostEventBlocking returns once Close has completed"):
+
+* `Parser.WaitClose` is a loop `select { case <-p.closed: return; case _, ok := <-p.sequences: … }`:
+  while it waits for the parser to stop it discards what the parser still emits (label `drain j`);
+  the arm `!ok` (channel closed) waits for `closed` and is the same step as the first arm here,
+  because `close(p.sequences); p.closed <- true` is one step of the parser in this model;
+* the input goroutine returns when the parser's channel is closed (`seq, ok := <-parser.Next()`);
+* `PostEventBlocking` is `select { case vx.queue <- ev: case <-vx.chQuit: }` (label `quit`).
+
+`Close()` on an input goroutine (kill-signal arm of its `select`, or the deferred `recover`) is a
+caller of `Close` like any other: the goroutine has left its loop for good (`IPc.done` = "no longer
+receiving"), what it does from then on is the `Caller` appended to `callers`, and it ends when that
+caller has returned. -/
 
 /-- Program counter of the parser goroutine (`Parser.run`). -/
 inductive PPc
@@ -103,27 +120,59 @@ inductive CPc
   | signalClose
   /-- `io.WriteString(vx.console, primaryAttributes)` -/
   | writeDA1
-  /-- `vx.parser.WaitClose()` = `<-p.closed` -/
+  /-- `vx.parser.WaitClose()`: the `select` over `p.closed` and `p.sequences` -/
   | waitClosed
   /-- the rest of `Suspend`, `console.Close()`, deferred `close(vx.chQuit)` -/
   | closeQuit
   | returned
   deriving DecidableEq, Repr
 
-/-- A goroutine (not the input goroutine) inside `Close()` (`inClose`) or inside a bare `Suspend()`. -/
+/-- A goroutine inside `Close()` (`inClose`) or inside a bare `Suspend()`. -/
 structure Caller where
   pc : CPc
   inClose : Bool := true
   deriving DecidableEq, Repr
 
-/-- Program counter of the input goroutine of `openTty`. -/
+/-- Program counter of an input goroutine of `openTty`. -/
 inductive IPc
   | select
-  /-- inside `handleSequence`: `k` blocking posts still to do -/
+  /-- inside `handleSequence` (or the SIGWINCH arm): `k` blocking posts still to do -/
   | posting (k : Nat)
-  /-- kill-signal arm: `vx.Close()` on this goroutine -/
-  | closing (c : CPc)
+  /-- it has left its loop: EOF, closed channel, or `vx.Close()` on this goroutine (which then runs as
+  a `Caller`) -/
   | done
+  deriving DecidableEq, Repr
+
+/-- What an input goroutine can do. -/
+inductive IAct
+  /-- its `select` takes the parser arm: a sequence, `EOF`, or `!ok` (channel closed) -/
+  | recv
+  /-- its `select` takes the kill-signal arm: `vx.Close(); return` -/
+  | kill
+  /-- its `select` takes the SIGWINCH arm: `PostEventBlocking(Redraw{})` -/
+  | winch
+  /-- the next blocking post goes into the queue / the handling of the sequence is finished -/
+  | step
+  /-- a blocking post takes the `<-vx.chQuit` arm (Close has completed): the event is discarded -/
+  | quit
+  /-- `handleSequence` panics: the deferred `recover` calls `vx.Close()` and panics again (a fault, not
+  something a scheduler picks) -/
+  | panic
+  deriving DecidableEq, Repr
+
+/-- An input goroutine as seen by `iact`: its program counter, its parser's channel, and whether that
+channel has been closed. -/
+structure IView where
+  ipc : IPc
+  seqs : List Tok
+  closed : Bool
+  deriving DecidableEq, Repr
+
+/-- The input goroutine of an earlier session (before a `Resume`) that has not finished yet, with what
+is left in the channel of its parser (that parser has stopped, its channel is closed). -/
+structure Old where
+  ipc : IPc
+  seqs : List Tok
   deriving DecidableEq, Repr
 
 structure SSys where
@@ -142,7 +191,11 @@ structure SSys where
   closedSig : Nat := 0
   ipc : IPc := .select
   killSig : Bool := false
-  /-- goroutines other than the input goroutine that are executing `Close()` / `Suspend()` -/
+  /-- `chSigWinSz` (capacity 1) -/
+  winchSig : Bool := false
+  /-- input goroutines of earlier sessions that are still alive -/
+  olds : List Old := []
+  /-- goroutines that are executing `Close()` / `Suspend()` -/
   callers : List Caller := []
   closedFlag : Bool := false
   suspendedFlag : Bool := false
@@ -164,22 +217,26 @@ inductive SLabel
   | termReply
   /-- one step of the parser goroutine -/
   | parser
-  /-- the input goroutine's `select` takes the parser arm / the kill-signal arm -/
-  | inputRecv | inputKill
-  /-- one further step of the input goroutine (a blocking post, or a step of its `Close()`) -/
-  | inputStep
+  /-- a step of the input goroutine of the current session -/
+  | input (a : IAct)
+  /-- a step of the `j`-th input goroutine left over from an earlier session -/
+  | old (j : Nat) (a : IAct)
   | consume
   /-- a kill signal is delivered (`chSigKill`) -/
   | signal
+  /-- SIGWINCH is delivered (`chSigWinSz`) -/
+  | winch
   /-- another goroutine calls `Close()` -/
   | callClose
   /-- another goroutine calls `Suspend()` -/
   | callSuspend
-  /-- `Resume()`: `openTty` starts a new parser and a new input goroutine (modelled when the
-  previous ones have finished), `vx.suspended = false` -/
+  /-- `Resume()`: `openTty` starts a new parser and a new input goroutine (the previous parser has
+  stopped; the previous input goroutine may still be alive: it joins `olds`), `vx.suspended = false` -/
   | resume
   /-- the `j`-th caller of `Close()` / `Suspend()` takes one step -/
   | caller (j : Nat)
+  /-- the `j`-th caller, inside `WaitClose`, takes a sequence out of the parser's channel and discards it -/
+  | drain (j : Nat)
   deriving DecidableEq, Repr
 
 /-- Where `Suspend` goes after its guard, after the close signal and after the DA1 query, in the
@@ -202,6 +259,39 @@ def closeStep (s : SSys) (inClose : Bool) : CPc → Option (SSys × CPc)
   | .closeQuit => some ({ s with quitCloses := s.quitCloses + 1 }, .returned)
   | .returned => none
 
+/-- `vx.Close()` called on an input goroutine. -/
+def closeCaller : Caller := { pc := .checkFlag, inClose := true }
+
+/-- One step of an input goroutine: the new shared state and the goroutine's new view; `none` = not enabled. -/
+def iact (s : SSys) (v : IView) : IAct → Option (SSys × IView)
+  | .recv =>
+      match v.ipc, v.seqs with
+      | .select, .seq k :: r => some (s, { v with seqs := r, ipc := .posting k })
+      | .select, .eof :: r => some (s, { v with seqs := r, ipc := .done })
+      | .select, [] => if v.closed then some (s, { v with ipc := .done }) else none
+      | _, _ => none
+  | .kill =>
+      match v.ipc with
+      | .select => if s.killSig then some ({ s with killSig := false, callers := s.callers ++ [closeCaller] }, { v with ipc := .done }) else none
+      | _ => none
+  | .winch =>
+      match v.ipc with
+      | .select => if s.winchSig then some ({ s with winchSig := false }, { v with ipc := .posting 1 }) else none
+      | _ => none
+  | .step =>
+      match v.ipc with
+      | .posting 0 => some (s, { v with ipc := .select })
+      | .posting (k + 1) => if s.queueLen < s.qcap then some ({ s with queueLen := s.queueLen + 1 }, { v with ipc := .posting k }) else none
+      | _ => none
+  | .quit =>
+      match v.ipc with
+      | .posting (k + 1) => if s.quitCloses ≥ 1 then some (s, { v with ipc := .posting k }) else none
+      | _ => none
+  | .panic =>
+      match v.ipc with
+      | .posting _ => some ({ s with callers := s.callers ++ [closeCaller] }, { v with ipc := .done })
+      | _ => none
+
 def snext (s : SSys) : SLabel → Option SSys
   | .termInput u => some { s with inbuf := s.inbuf ++ [u] }
   | .termReply => if s.da1Pending > 0 then some { s with da1Pending := s.da1Pending - 1, inbuf := s.inbuf ++ [none, none, some 1] } else none
@@ -219,32 +309,26 @@ def snext (s : SSys) : SLabel → Option SSys
       | .emitEOF => if s.seqs.length < 2 then some { s with seqs := s.seqs ++ [.eof], ppc := .signalClosed } else none
       | .signalClosed => if s.closedSig < 1 then some { s with seqsClosed := true, closedSig := s.closedSig + 1, ppc := .done } else none
       | .done => none
-  | .inputRecv =>
-      match s.ipc, s.seqs with
-      | .select, .seq k :: r => some { s with seqs := r, ipc := .posting k }
-      | .select, .eof :: r => some { s with seqs := r, ipc := .done }
-      | _, _ => none
-  | .inputKill =>
-      match s.ipc with
-      | .select => if s.killSig then some { s with killSig := false, ipc := .closing .checkFlag } else none
-      | _ => none
-  | .inputStep =>
-      match s.ipc with
-      | .posting 0 => some { s with ipc := .select }
-      | .posting (k + 1) => if s.queueLen < s.qcap then some { s with queueLen := s.queueLen + 1, ipc := .posting k } else none
-      | .closing c =>
-          match closeStep s true c with
-          | some (s', .returned) => some { s' with ipc := .done }     -- `vx.Close(); return`
-          | some (s', c') => some { s' with ipc := .closing c' }
-          | none => none
-      | _ => none
+  | .input a =>
+      match iact s ⟨s.ipc, s.seqs, s.seqsClosed⟩ a with
+      | some (s', v) => some { s' with ipc := v.ipc, seqs := v.seqs }
+      | none => none
+  | .old j a =>
+      match s.olds[j]? with
+      | none => none
+      | some o =>
+        match iact s ⟨o.ipc, o.seqs, true⟩ a with
+        | some (s', v) => some { s' with olds := s'.olds.set j ⟨v.ipc, v.seqs⟩ }
+        | none => none
   | .consume => if s.consumer && s.queueLen > 0 then some { s with queueLen := s.queueLen - 1 } else none
   | .signal => if s.killSig then none else some { s with killSig := true }
+  | .winch => if s.winchSig then none else some { s with winchSig := true }
   | .callClose => some { s with callers := s.callers ++ [{ pc := .checkFlag, inClose := true }] }
   | .callSuspend => some { s with callers := s.callers ++ [{ pc := .checkSuspended, inClose := false }] }
   | .resume =>
-      if s.ppc == .done && s.ipc == .done then
+      if s.ppc == .done then
         some { s with ppc := .top, seqs := [], seqsClosed := false, closeSig := 0, closedSig := 0, ipc := .select,
+                      olds := if s.ipc == .done then s.olds else s.olds ++ [⟨s.ipc, s.seqs⟩],
                       suspendedFlag := if s.resumeClears then false else s.suspendedFlag }
       else none
   | .caller j =>
@@ -254,6 +338,13 @@ def snext (s : SSys) : SLabel → Option SSys
         match closeStep s c.inClose c.pc with
         | some (s', c') => some { s' with callers := s'.callers.set j { c with pc := c' } }
         | none => none
+  | .drain j =>
+      match s.callers[j]? with
+      | none => none
+      | some c =>
+        match c.pc, s.seqs with
+        | .waitClosed, _ :: r => some { s with seqs := r }
+        | _, _ => none
 
 def srun : SSys → List SLabel → Option SSys
   | s, [] => some s
@@ -267,31 +358,33 @@ inductive SReachable (s0 : SSys) : SSys → Prop
 
 /-- Everything the library started has finished and every `Close()` / `Suspend()` has returned. -/
 def SSys.final (s : SSys) : Bool :=
-  s.ppc == .done && s.ipc == .done && s.callers.all (·.pc == .returned)
+  s.ppc == .done && s.ipc == .done && s.olds.all (·.ipc == .done) && s.callers.all (·.pc == .returned)
 
-/-- Labels that do not need the terminal to send anything new nor the application to do anything:
-steps of the library's own goroutines and of the callers of `Close`, and the terminal's answer to
-a DA1 query that was written. -/
-def SLabel.internal : SLabel → Bool
-  | .parser | .inputRecv | .inputStep | .caller _ | .termReply => true
-  | _ => false
+def IAct.sched : IAct → Bool
+  | .panic => false
+  | _ => true
 
-/-- What a scheduler may pick on its own: the internal labels, the signal arm of the input
-goroutine's `select`, and the application receiving an event. -/
+/-- What a scheduler may pick on its own: steps of the library's goroutines (either arm of every
+`select`), of the callers of `Close`/`Suspend`, the terminal's answer to a DA1 query that was
+written, the application receiving an event. -/
 def SLabel.sched : SLabel → Bool
-  | .parser | .inputRecv | .inputKill | .inputStep | .caller _ | .termReply | .consume => true
+  | .parser | .caller _ | .drain _ | .termReply | .consume => true
+  | .input a | .old _ a => a.sched
   | _ => false
 
 /-- `close(vx.chQuit)` ran twice: "panic: close of closed channel". -/
 def SSys.panicked (s : SSys) : Bool := s.quitCloses ≥ 2
 
-/-- No internal label is enabled. -/
-def SSys.stuck (s : SSys) : Bool :=
-  (snext s .parser).isNone && (snext s .inputRecv).isNone && (snext s .inputKill).isNone && (snext s .inputStep).isNone &&
-  (snext s .termReply).isNone && (List.range s.callers.length).all fun j => (snext s (.caller j)).isNone
+def schedActs : List IAct := [.recv, .kill, .winch, .step, .quit]
 
-/-- Nothing a scheduler may pick is enabled (`stuck`, and the application has nothing to receive). -/
-def SSys.quiescent (s : SSys) : Bool := s.stuck && (snext s .consume).isNone
+/-- Every label a scheduler may pick that can be enabled in `s`. -/
+def SSys.schedLabels (s : SSys) : List SLabel :=
+  [.parser, .termReply, .consume] ++ schedActs.map .input ++
+  (List.range s.callers.length).flatMap (fun j => [.caller j, .drain j]) ++
+  (List.range s.olds.length).flatMap (fun j => schedActs.map (.old j))
+
+/-- Nothing a scheduler may pick is enabled: the state of rest. -/
+def SSys.quiescent (s : SSys) : Bool := s.schedLabels.all fun l => (snext s l).isNone
 
 end VaxisModel.Model.Conc
 
